@@ -98,7 +98,7 @@ Next ==
   \/ kind = "expseed" /\ kind' = "nume" /\ d' \in ExpBases /\ aux' \in Exponents \X {0, 1} /\ UNCHANGED <<fam, key, s>>
   \/ kind = "intseed" /\ kind' = "int" /\ aux' \in (1..Len(Ints)) \X {0, 1, 2, 3} /\ UNCHANGED <<fam, key, s, d>>
 \* the design theorem, with the open finding as a named exemption
-RoundTripOrKnown == kind # "str" \/ RoundTrip(s) \/ Trigger_F_C13_a(s)
+RoundTripOrKnown == kind # "str" \/ RoundTrip(s) \/ (DevLongBracket /\ Trigger_F_C13_a(s))
 Emit ==
   CASE kind = "str" -> EmitLine("CASE " \o JsonOf([kind |-> "str", fam |-> fam, b |-> s, rt |-> RoundTrip(s), trig |-> Trigger_F_C13_a(s),
                                                     u |-> NeedsUnicodeEscape(s), long |-> Len(s) >= 2 /\ UsesLongBracket(s), model |-> WriteString(s)]))
